@@ -2,6 +2,7 @@
 from ..absint import Int, Adt, Atom, Tup, Ref, Arr, Abort, ty_from_str, lin_add, iv_min, iv_max
 from .. import load, mir
 from . import io_rules as io
+from . import coro
 from .c14 import classify, nrange
 
 CO = 'minicbor_io::async_reader::AsyncReader::<R>::read_with::{closure#0}'
@@ -38,18 +39,14 @@ def run(ctx):
         ctx.fail_closed('T-AREADER', 'pre-transform body of AsyncReader::read_with not exported')
         return 'failed'
     where = mir.loc(inst['sp'])
-    ctx.rules_run.append('F-AWAIT: only references and futures_util::io::Read futures are live across an await; only Read futures are polled')
-    n = saved_locals_rule(ctx, 'F-AWAIT', inst, ("futures_util::io::Read<",))
-    ctx.floor('F-AWAIT', 'saved locals', n, 3)
-    heads = io.loop_heads(inst['body'])
-    if not heads:
-        ctx.fail_closed('T-AREADER', 'no loop in read_with (anchor moved)')
-        return 'failed'
-    cut = heads[0][1]
-    ctx.rules_run.append('T-AREADER: from every persistent state (ReadLen(buf,o<=4) / ReadVal(o<=len)) one loop step is interpreted with all poll outcomes; at every suspension, loop-back and return the offset stored in self.state accounts for exactly the bytes taken from the source')
-    total = 0
-    for start in ('ReadLen', 'ReadVal'):
-        def setup(m, st, args, start=start):
+    ctx.rules_run.append('F-AWAIT: every arrival at a loop head of read_with (or of a helper future it awaits, inlined) is an instance of the state a fresh future '
+                         'started from the persistent state has there: call stack, every live local, self and the buffer length unify under a substitution of the '
+                         'generic symbols that respects their ranges.  Progress kept in a local that the persistent state does not determine fails to unify and is reported')
+    ctx.rules_run.append('T-AREADER: from every persistent state (ReadLen(buf,o<=4) / ReadVal(o<=len)) the body is interpreted with all poll outcomes up to the next suspension, covered loop '
+                         'arrival or return; at each of them the offset stored in self.state accounts for exactly the bytes taken from the source')
+
+    def mk_setup(start):
+        def setup(m, st, args):
             obj = m.make_value(st, ty_from_str(SELF_TY), 'self*')
             ad = prog.adts[SELF_TY.split('<')[0]]
             names = ad['variants'][0]['fields']
@@ -64,11 +61,24 @@ def run(ctx):
             st.mem[('arg', 'self')] = Adt(obj.adt, 0, fs)
             st.mem[('arg', 'ctx')] = Atom('ctx*')
             return [Tup([Ref(('arg', 'self'), (), True), Ref(('arg', 'ctx'), (), True)]), Atom('resume')]
-        try:
-            m, outs = io.run_io(prog, inst, cut, setup)
-        except Abort as e:
-            ctx.fail_closed('T-AREADER', 'read_with cannot be summarised from %s: %s' % (start, e))
-            continue
+        return setup
+    try:
+        runs, table, notes = coro.explore(prog, inst, [(s_, mk_setup(s_)) for s_ in ('ReadLen', 'ReadVal')])
+    except coro.LoopState as e:
+        ctx.violation('F-AWAIT', 'loop-state', str(e), where)
+        return 'failed'
+    except Abort as e:
+        ctx.fail_closed('T-AREADER', 'read_with cannot be summarised: %s' % e)
+        return 'failed'
+    ctx.notes.extend(notes)
+    for (hk, sid), g in sorted(table.items(), key=repr):
+        ctx.ok('F-AWAIT', 'generic|%s|%s' % (hk[0].split('::')[-2], sid))
+    ctx.floor('F-AWAIT', 'generic loop arrivals', len(table), 2)
+    total = 0
+    ncut = 0
+    for start in ('ReadLen', 'ReadVal'):
+        m, outs = runs[start]
+        ncut += sum(1 for o in outs if o.kind == 'cut')
         total += len(outs)
         o0 = Int.sym('o')
         for o in outs:
@@ -155,4 +165,5 @@ def run(ctx):
         if fl:
             ctx.violation('T-AREADER.precision', start, 'summary not exact: %s' % sorted(fl), where)
     ctx.floor('T-AREADER', 'paths', total, 12)
+    ctx.floor('F-AWAIT', 'covered loop arrivals', ncut, 3)
     return 'AsyncReader::read_with: %d one-step paths from both persistent states checked against the progress invariant; no schedule is enumerated (the invariant makes every schedule safe).' % total
